@@ -144,6 +144,7 @@ class Check:
         self.findings = [f for f in load_findings() if f['property'] == prop_id]
         self.explanation = ''
         self.extra = {}
+        self._families_run = set()
         sys.path.insert(0, SRC_ROOT) if SRC_ROOT != '/repo' else None
 
     # ---- reporting helpers
@@ -195,7 +196,7 @@ class Check:
         if not quiet: self.say('  [P] ' + rep.summary())
         if rep.status == 'undecided':
             self.undecided_notes.append(f'{contract.name}: {rep.reason}')
-            self.native_fallback(contract, rep)
+            self.native_fallback(contract, rep, family=True)
             return rep
         if not rep.obligations:
             self.faults.append(f'{contract.name}: zero obligations generated (vacuous)')
@@ -204,10 +205,12 @@ class Check:
             self.handle_failed(contract, ob)
         for ob in rep.undecided:
             self.undecided_notes.append(f'{ob.name}: {ob.detail}')
-        if rep.undecided: self.native_fallback(contract, rep)
+        # the contract's native family runs on every run, decided or not: it carries what the abstraction of the proof leaves out (histories across calls,
+        # state left behind in class tables, input classes outside the modelled sort) -- a bounded stand-in next to the proof, never counted as proved
+        self.native_fallback(contract, rep, family=True)
         return rep
 
-    def native_fallback(self, contract, rep, max_candidates=2000, budget_s=20.0):
+    def native_fallback(self, contract, rep, max_candidates=2000, budget_s=20.0, family=True):
         """The contract, or some of its obligations, cannot be decided on the current source (the code left the modelled subset, or a path is
         over-approximated).  Undecided is not a violation.  What can still be done soundly: candidate inputs -- the solver's models of the undecided
         obligations (inputs are concrete there even though intermediate values are havoc) and the contract's native search family -- are run on the
@@ -215,6 +218,11 @@ class Check:
         with that input; otherwise the contract stays undecided.  This is a bounded stand-in (labelled so in the evidence), never counted as proved."""
         rp = contract.replay
         if rp is None or not (rp.call or all(isinstance(v, str) and v in ('int', 'bool', 'str') for v in contract.params.values())): return
+        if not rep.undecided and rep.status != 'undecided' and not (rp.search and rp.judge): return
+        fam_key = (contract.name, contract.note)
+        if not rep.undecided and rep.status != 'undecided':
+            if fam_key in self._families_run: return
+        self._families_run.add(fam_key)
         t0 = time.time(); n = 0; found = None
 
         def candidates():
@@ -243,13 +251,15 @@ class Check:
                     found = (py, outcome, bad); break
         except Exception as ex:
             self.undecided_notes.append(f'{contract.name}: native fallback failed: {type(ex).__name__}: {ex}')
-        self.bounded_runs.append({'name': f'native fallback for the undecided contract {contract.name}', 'bound': f'<= {max_candidates} candidates: models of undecided obligations + the contract\'s native search family, {budget_s:.0f} s',
+        und = bool(rep.undecided) or rep.status == 'undecided'
+        self.bounded_runs.append({'name': ('native fallback for the undecided contract ' if und else 'native family of the contract ') + contract.name + (f' [{contract.note[:60]}]' if contract.note else ''),
+                                  'bound': f'<= {max_candidates} candidates: ' + ('models of undecided obligations + ' if und else '') + f'the contract\'s native search family, {budget_s:.0f} s',
                                   'evaluations': n, 'distinct_classes': None, 'witnesses': 1 if found else 0, 'wall_s': round(time.time() - t0, 2), 'samples': []})
         if found:
             py, outcome, bad = found
             rec = {'function': contract.target, 'input': {k: repr(v) for k, v in py.items() if not k.startswith('_')}, 'native_outcome': [outcome[0], repr(outcome[1])[:400]], 'natively_violated': bad,
-                   'found_by': 'the contract is undecided on the current source; this candidate input was run on the real function and violates the contract'}
-            self.violation(f'{contract.name}#native:{bad[0][:120]}', f'{contract.name} (undecided by the verifier on the current source) violates its contract on input {rec["input"]}: real code gives {rec["native_outcome"]}, violating {bad}', rec)
+                   'found_by': ('the contract is undecided on the current source; ' if und else 'native family of the contract: ') + 'this input was run on the real function and violates the contract'}
+            self.violation(f'{contract.name}#native:{bad[0][:120]}', f'{contract.name}' + (' (undecided by the verifier on the current source)' if und else '') + f' violates its contract on input {rec["input"]}: real code gives {rec["native_outcome"]}, violating {bad}', rec)
 
     def handle_failed(self, contract, ob):
         key = re.sub(r' ?@path\d+', '', f'{contract.name}#{ob.clause}')        # one violation per clause, not per path
